@@ -19,6 +19,7 @@ import (
 	"os"
 	"path/filepath"
 	"reflect"
+	"runtime"
 	"sort"
 	"strconv"
 	"strings"
@@ -29,6 +30,7 @@ import (
 
 	"github.com/gkampitakis/go-snaps/internal/colors"
 	"github.com/gkampitakis/go-snaps/internal/verifhook/sched"
+	"github.com/gkampitakis/go-snaps/match"
 )
 
 // ---------------------------------------------------------------------------
@@ -38,6 +40,7 @@ type vfViolation struct {
 	Class string          `json:"class"`
 	Msg   string          `json:"msg"`
 	Case  json.RawMessage `json:"case"`
+	Mode  string          `json:"mode,omitempty"` // "disturb": found with interposed unrelated calls; the replay needs them too
 }
 
 type vfCtx struct {
@@ -132,7 +135,11 @@ func (c *vfCtx) violation(class, msg string, cs any) {
 	if err != nil {
 		b, _ = json.Marshal(fmt.Sprintf("%#v", cs))
 	}
-	c.violations = append(c.violations, vfViolation{Class: class, Msg: msg, Case: b})
+	mode := ""
+	if c.mode == "disturb" {
+		mode = "disturb"
+	}
+	c.violations = append(c.violations, vfViolation{Class: class, Msg: msg, Case: b, Mode: mode})
 	if c.debug {
 		fmt.Printf("VIOL class=%q %s\n  case=%s\n", class, msg, b)
 	}
@@ -170,7 +177,15 @@ func vfRegister[C any](prop string, gen func(c *vfCtx, emit func(C)), run func(c
 			if !c.mine() {
 				return
 			}
+			if vfDisturb.on && vfDisturb.thin > 1 {
+				// the pass with interposed calls covers a fixed fraction of the largest enumerations in the quick tier
+				vfDisturb.seq++
+				if vfDisturb.seq%vfDisturb.thin != 0 {
+					return
+				}
+			}
 			c.curCase = cs
+			vfDisturbCase(cs)
 			c.count("evaluations", 1)
 			c.count("traces", 1)
 			func() {
@@ -198,6 +213,7 @@ func vfRegister[C any](prop string, gen func(c *vfCtx, emit func(C)), run func(c
 			return
 		}
 		c.curCase = cs
+		vfDisturbCase(cs)
 		c.count("evaluations", 1)
 		c.count("traces", 1)
 		run(c, cs)
@@ -239,6 +255,18 @@ func TestVerifDriver(t *testing.T) {
 				panic(r)
 			}
 		}()
+		if c.mode == "disturb" {
+			vfDisturb.on = true
+			vfDisturb.dir = filepath.Join(c.scratch, "disturb")
+			os.MkdirAll(vfDisturb.dir, 0o755)
+			defer func() { c.count("interposed_unrelated_calls", vfDisturb.calls) }()
+			vfDisturb.thin, _ = strconv.ParseUint(os.Getenv("VERIF_DISTURB_THIN"), 10, 64)
+			if vfDisturb.thin > 1 {
+				c.bound("interposed_pass_covers", fmt.Sprintf("every %dth case of the enumeration", vfDisturb.thin))
+			} else {
+				c.bound("interposed_pass_covers", "every case of the enumeration")
+			}
+		}
 		vfQuietStdout(func() {
 			switch {
 			case os.Getenv("VERIF_REPLAY") != "":
@@ -315,14 +343,89 @@ func vfQuietStdout(f func()) { f() }
 // mock testingT
 
 type vfT struct {
-	name     string
-	errs     []string
-	logs     []string
-	cleanups []func()
-	skips    []string
+	disturber bool // this mock belongs to the interposed disturbance calls
+	name      string
+	errs      []string
+	logs      []string
+	cleanups  []func()
+	skips     []string
 }
 
-func (m *vfT) Helper() {}
+// Helper is the first thing every exported Match* entry point calls: in disturbance mode (DESIGN §12.10) this is
+// where calls of ANOTHER test, through another Config into another directory, are interposed. A library that keeps
+// state between calls (scratch buffers, encoders, caches hoisted to package scope) then behaves differently.
+func (m *vfT) Helper() {
+	if !vfDisturb.on || vfDisturb.busy || m.disturber {
+		return
+	}
+	pc, _, _, ok := runtime.Caller(1)
+	if !ok {
+		return
+	}
+	fn := runtime.FuncForPC(pc).Name()
+	switch fn[strings.LastIndex(fn, ".")+1:] {
+	case "MatchSnapshot", "MatchJSON", "MatchYAML", "MatchStandaloneSnapshot", "MatchStandaloneJSON":
+	default:
+		return
+	}
+	vfDisturb.busy = true
+	defer func() { vfDisturb.busy = false }()
+	vfDisturbCalls()
+}
+
+var vfDisturb struct {
+	on, busy bool
+	dir      string
+	n, seq   uint64
+	thin     uint64
+	calls    int64
+}
+
+// vfDisturbMenu: unrelated calls, failing ones included; two of them are made per trigger, rotating.
+var vfDisturbMenu = []func(cfg *Config, t *vfT, n uint64){
+	func(cfg *Config, t *vfT, n uint64) { cfg.MatchSnapshot(t, "d\n---\n[TestA - 1]\nx\n\n[TestA - 2]") },
+	func(cfg *Config, t *vfT, n uint64) {
+		cfg.MatchJSON(t, `{"z":[1,{"y":null}],"created":"now"}`, match.Any("z.0", "created"))
+	},
+	func(cfg *Config, t *vfT, n uint64) { cfg.MatchJSON(t, `{"a":`) },
+	func(cfg *Config, t *vfT, n uint64) {
+		cfg.MatchYAML(t, struct {
+			H []any `yaml:"h"`
+		}{[]any{"ok", make(chan int)}})
+	},
+	func(cfg *Config, t *vfT, n uint64) { cfg.MatchYAML(t, "k: [1, 2]\nm:\n  - a\n", match.Any("$.k[0]")) },
+	func(cfg *Config, t *vfT, n uint64) {
+		cfg.MatchStandaloneSnapshot(t, strings.Repeat("disturbance line 0123456789\n", 200))
+	},
+	func(cfg *Config, t *vfT, n uint64) { cfg.MatchStandaloneJSON(t, []byte(` [ 1 , {"b":2,"a":[]} ] `)) },
+	func(cfg *Config, t *vfT, n uint64) {
+		WithConfig(Dir(vfDisturb.dir), Filename("d"), Update(true)).MatchSnapshot(t, fmt.Sprintf("changed %d\n%s", n, strings.Repeat("x", int(n%3)*3000)))
+	},
+	func(cfg *Config, t *vfT, n uint64) {
+		cfg.MatchJSON(t, map[string]any{"b": []int{1, 2}, "a": "x"}, match.Type[string]("b"))
+	},
+	func(cfg *Config, t *vfT, n uint64) {
+		cfg.MatchYAML(t, map[string]any{"l": []any{1, []any{2, 3}}, "k": "v"})
+	},
+}
+
+func vfDisturbCalls() {
+	t := &vfT{name: "TestDisturb", disturber: true}
+	cfg := WithConfig(Dir(vfDisturb.dir), Filename("d"))
+	for i := 0; i < 2; i++ {
+		vfDisturbMenu[vfDisturb.n%uint64(len(vfDisturbMenu))](cfg, t, vfDisturb.n)
+		vfDisturb.n++
+		vfDisturb.calls++
+	}
+	t.end()
+}
+
+// vfDisturbCase makes the rotation a function of the case alone (so that a replay interposes the same calls).
+func vfDisturbCase(cs any) {
+	if vfDisturb.on {
+		vfDisturb.n = vfHashJSON(cs) % 1000
+	}
+}
 func (m *vfT) Skip(a ...any) {
 	m.skips = append(m.skips, "Skip:"+fmt.Sprint(a...))
 }
@@ -618,7 +721,18 @@ func vfLogged(f func()) []sched.Op {
 	return sched.StopLog()
 }
 
-func vfMutOps(ops []sched.Op) []sched.Op { return sched.Mutations(ops) }
+// vfMutOps: the mutating operations of a log (those of the interposed disturbance calls, which
+// go to their own directory, are not the observed call's).
+func vfMutOps(ops []sched.Op) []sched.Op {
+	var out []sched.Op
+	for _, o := range sched.Mutations(ops) {
+		if vfDisturb.on && strings.HasPrefix(o.Res, vfDisturb.dir) {
+			continue
+		}
+		out = append(out, o)
+	}
+	return out
+}
 
 func vfUnmarshalStrict(b []byte, v any) error {
 	dec := json.NewDecoder(bytes.NewReader(b))
